@@ -2,6 +2,7 @@
 # tools/seedround.sh ROUND ID : collect the seeded changes of a sub-agent from /tmp/seed<ROUND>_ID/_seed/{a,b}
 # into seeded/ID/r<ROUND>a, r<ROUND>b, verify demo + pinned tests + run the check; then remove the scratch worktree.
 r=$1; id=$2
+[ -f /tmp/seed${r}_$id/_seed/a/meta.json ] && [ -f /tmp/seed${r}_$id/_seed/b/meta.json ] || { echo "$id: agent has not delivered yet (worktree kept)"; exit 0; }
 for v in a b; do
   src=/tmp/seed${r}_$id/_seed/$v
   [ -f $src/patch.diff ] || { echo "$id/$v: no patch"; continue; }
